@@ -451,6 +451,11 @@ def sdDelattr (s : SD K V) (attr : Option K) : Except Err (SD K V) :=
         else                                         -- different: put the attribute back
           .ok { s with attrs := dset s.attrs attr item }
 
+def Res.ofExcept (s : SD K V) : Except Err (SD K V) → SD K V × Res K V
+  | .ok s' => (s', .done)
+  | .error .key => (s, .keyError)
+  | .error .attr => (s, .attrError)
+
 /-- `getattr(self, name)` for an instance attribute -/
 def sdGetattr (s : SD K V) (attr : Option K) : Option V := dget s.attrs attr
 
@@ -468,6 +473,51 @@ def sdIter (s : SD K V) : List V := storeValues s.mkd
     unhashable (`sd["a"] = unhashable_callable`), = the names in front of `BAD` when the key tuple
     holds an unhashable name (`self.key2keys(BAD)` raises `TypeError`, which the loop does not catch). -/
 def sdSetRefused (s : SD K V) (deleted : List K) : SD K V × Res K V := (sdDelLoop s deleted, .rejected)
+
+/-! ### the NAME `default` (outside the property: names are assumed different from `default`) — as coded
+
+  `dn` is the key spelled `"default"`.  The attribute that exposes this name IS the instance's
+  `default`, so `hasattr(self, "default")` is always true (class attribute) and the two `__delattr__`
+  calls of `__delitem__` hit the same attribute.  Not part of `sdStep`; the theorems C15.44-46 say what
+  happens, the tie runs it (driver entry `sdn`). -/
+
+/-- `StrategyDict.__delitem__("default")` as coded: the item goes; when the instance default equals the
+    strategy it is removed as "the attribute of the name" — whether or not the strategy keeps other
+    names — and when `default` was its only name the second `__delattr__("default")` raises
+    `AttributeError` AFTER everything was removed -/
+def sdDelDefaultName (s : SD K V) (dn : K) : SD K V × Res K V :=
+  match key2keys s.mkd dn with
+  | none => (s, .keyError)
+  | some keys =>
+  match getTuple s.mkd keys with
+  | none => (s, .keyError)
+  | some value =>
+  match delitem s.mkd dn with
+  | none => (s, .keyError)
+  | some mk' =>
+    if dget s.attrs none = some value then
+      ({ mkd := mk', attrs := derase s.attrs none }, if keys.length = 1 then .attrError else .done)
+    else ({ mkd := mk', attrs := s.attrs }, .done)
+
+/-- `sd["default"] = value` as coded: the deletion loop catches `KeyError` only (the `AttributeError`
+    above escapes, half-way); then `setattr(self, "default", value)` makes the strategy THE default,
+    whatever was stored first -/
+def sdSetDefaultName (s : SD K V) (dn : K) (value : V) : SD K V × Res K V :=
+  match sdDelDefaultName s dn with
+  | (s1, .attrError) => (s1, .attrError)
+  | (s1, _) =>
+    match setitem s1.mkd [dn] value with
+    | none => (s1, .keyError)
+    | some mk' => ({ mkd := mk', attrs := dset s1.attrs none value }, .done)
+
+/-- `del sd.default` as coded when `default` may be a stored name: `self["default"] == getattr(self,
+    "default")` decides between `del self["default"]` and putting the attribute "back" -/
+def sdDelattrDefaultName (s : SD K V) (dn : K) : SD K V × Res K V :=
+  match getitem s.mkd dn with
+  | none => Res.ofExcept s (objDelattr s none)
+  | some item =>
+    if dget s.attrs none = some item then sdDelDefaultName s dn
+    else ({ s with attrs := dset s.attrs none item }, .done)
 
 inductive SOp (K V : Type) where
   | set (keys : List K) (value : V)
@@ -494,11 +544,6 @@ inductive SOp (K V : Type) where
   /-- `key_tuple in sd`, `sd.get(key_tuple)` (inherited from `dict`) -/
   | contains (keyTuple : List K)
   | dictGet (keyTuple : List K)
-
-def Res.ofExcept (s : SD K V) : Except Err (SD K V) → SD K V × Res K V
-  | .ok s' => (s', .done)
-  | .error .key => (s, .keyError)
-  | .error .attr => (s, .attrError)
 
 def Res.ofDefault : Option V → Res K V
   | none => .notImpl
